@@ -2055,6 +2055,20 @@ func (p *c20SkPlan) run(rep *kit.Report, env *c20SkEnv, wi *int) {
 }
 
 
+// c20BoundaryToken: first two-letter upper-case token (AA, AB, ...) whose token hash addresses a bit >= 496 in
+// either half of the bloom filter word ((hash>>28)&0x1ff or (hash>>37)&0x1ff, see lib/bloomfilter).
+func c20BoundaryToken() string {
+	for a := byte('A'); a <= 'Z'; a++ {
+		for b := byte('A'); b <= 'Z'; b++ {
+			h := tokenizer.Hash([]byte{a, b})
+			if (h>>28)&0x1ff >= 496 || (h>>37)&0x1ff >= 496 {
+				return string([]byte{a, b})
+			}
+		}
+	}
+	return "C"
+}
+
 func c20SkPlans(thorough bool) []c20SkPlan {
 	S, I := influx.Field_Type_String, influx.Field_Type_Int
 	v := c20SkCol{Name: "v", Typ: I, Dom: []*string{c20Str("1"), c20Str("2")}, ByPosition: true}
@@ -2068,17 +2082,20 @@ func c20SkPlans(thorough bool) []c20SkPlan {
 		}
 		return out
 	}
-	// bloom filter on string column c (unsorted), non-indexed column v
-	cDom := []*string{nil, c20Str("A"), c20Str("C"), c20Str("AC"), c20Str("A C")}
+	// bloom filter on string column c (unsorted), non-indexed column v.
+	// T is a token whose hash selects a bit position >= 496 inside the 512-bit word of the one-hit bloom filter
+	// (the boundary at which the filter versions differ), found by a fixed search order.
+	T := c20BoundaryToken()
+	cDom := []*string{nil, c20Str("A"), c20Str(T), c20Str("AC"), c20Str("A " + T)}
 	mp := func(l string) c20SkAtom { return c20SkAtom{"c", S, "MATCHPHRASE", l} }
-	bfAtoms := []c20SkAtom{mp("A"), mp("C"), mp("E"), mp("A C"), mp("C A"), mp("AC"),
+	bfAtoms := []c20SkAtom{mp("A"), mp(T), mp("E"), mp("A " + T), mp(T + " A"), mp("AC"),
 		{"c", S, "=", "A"}, {"c", S, "!=", "A"}, {"c", S, ">=", "C"}, vAtom}
-	bfAtoms3 := []c20SkAtom{mp("A"), mp("A C"), mp("E"), {"c", S, "!=", "A"}, vAtom}
+	bfAtoms3 := []c20SkAtom{mp("A"), mp("A " + T), mp("E"), {"c", S, "!=", "A"}, vAtom}
 	bfRows := [3]int{3, 3, 2}
 	if thorough {
 		cDom = append(cDom, c20Str("C-A"), c20Str("a"))
-		bfAtoms = append(bfAtoms, mp("a"), mp("C-A"), mp("A-C"))
-		bfAtoms3 = append(bfAtoms3, mp("C"))
+		bfAtoms = append(bfAtoms, mp("a"), mp("C"), mp("C-A"), mp("A-C"))
+		bfAtoms3 = append(bfAtoms3, mp(T))
 		bfRows = [3]int{4, 3, 3}
 	}
 	sDom := []*string{nil, c20Str("A"), c20Str("C"), c20Str("D")}
